@@ -36,6 +36,7 @@ import (
 	"fmt"
 	"hash/fnv"
 	"os"
+	"regexp"
 	"runtime/debug"
 	"sort"
 	"strings"
@@ -401,6 +402,9 @@ func (s *c22Sim) onFinalise(i int, f verifFinalisation) {
 	}
 	s.events = append(s.events, ev)
 	s.mu.Unlock()
+	if f.Err == nil {
+		s.estimateScriptOnFinalise(i, f.Round)
+	}
 }
 
 // lowestHead returns the honest finalised head with the lowest number (what every honest node still accepts
@@ -707,7 +711,8 @@ func c22ForkBlockAgainst(t *verifTree, r *vcommon.Rand, base, m int) int {
 }
 
 // observe is called (inline, from the sending service's goroutine) for every message an honest node emits:
-// the adversary sees everything. It only records and schedules; it never calls into a service.
+// the adversary sees everything. It only records and schedules (the signing is done on other goroutines, on a
+// snapshot, so that an honest service is never held up by the harness); it never calls into a service.
 func (a *c22Adv) observe(from int, gm GrandpaMessage) {
 	s := a.s
 	if len(s.p.Byz) == 0 {
@@ -736,7 +741,8 @@ func (a *c22Adv) observe(from int, gm GrandpaMessage) {
 		key := fmt.Sprintf("%d/%d", m.Round, stage)
 		if !a.stageSeen[key] {
 			a.stageSeen[key] = true
-			a.playStage(m.Round, m.SetID, stage)
+			r, round, set := a.r.Fork(), m.Round, m.SetID
+			s.after(0, func() { a.playStage(r, round, set, stage) })
 		}
 		if m.Message.Stage == precommit {
 			k2 := fmt.Sprintf("forge/%d", m.Round)
@@ -744,12 +750,21 @@ func (a *c22Adv) observe(from int, gm GrandpaMessage) {
 			// once when the first precommit shows up, once when about half of the honest have precommitted
 			if (n == 1 || n == (len(s.hon)+1)/2) && a.forged[k2] < 2 {
 				a.forged[k2]++
-				a.forgeCommits(m.Round, m.SetID)
+				snap := map[byte]map[int]*VoteMessage{}
+				for st, vs := range a.votes[m.Round] {
+					snap[st] = map[int]*VoteMessage{}
+					for k, v := range vs {
+						snap[st][k] = v
+					}
+				}
+				r, round, set := a.r.Fork(), m.Round, m.SetID
+				s.after(0, func() { a.forgeCommits(r, snap, round, set) })
 			}
 			k3 := fmt.Sprintf("prim/%d", m.Round+1)
 			if !a.stageSeen[k3] {
 				a.stageSeen[k3] = true
-				a.primarySplit(m.Round+1, m.SetID)
+				r, round, set := a.r.Fork(), m.Round+1, m.SetID
+				s.after(0, func() { a.primarySplit(r, round, set) })
 			}
 		}
 	case *CommitMessage:
@@ -766,8 +781,8 @@ func (a *c22Adv) observe(from int, gm GrandpaMessage) {
 }
 
 // playStage makes every Byzantine identity act in one stage of one round.
-func (a *c22Adv) playStage(round, setID uint64, stage Subround) {
-	s, r, t := a.s, a.r, a.s.tree
+func (a *c22Adv) playStage(r *vcommon.Rand, round, setID uint64, stage Subround) {
+	s, t := a.s, a.s.tree
 	lowest, _ := s.heads()
 	iv := s.p.IntervalMs
 	for _, b := range s.p.Byz {
@@ -854,8 +869,8 @@ func (a *c22Adv) playStage(round, setID uint64, stage Subround) {
 }
 
 // primarySplit: a Byzantine primary of `round` proposes different blocks to different honest nodes.
-func (a *c22Adv) primarySplit(round, setID uint64) {
-	s, r, t := a.s, a.r, a.s.tree
+func (a *c22Adv) primarySplit(r *vcommon.Rand, round, setID uint64) {
+	s, t := a.s, a.s.tree
 	prim := int(round % uint64(s.p.N)) //nolint:gosec
 	if !s.p.isByz(prim) {
 		return
@@ -894,15 +909,15 @@ func c22Garbage(r *vcommon.Rand) [64]byte {
 }
 
 // forgeCommits sends forged / short / adversarial commit messages for `round`.
-func (a *c22Adv) forgeCommits(round, setID uint64) {
-	s, r, t := a.s, a.r, a.s.tree
+func (a *c22Adv) forgeCommits(r *vcommon.Rand, snap map[byte]map[int]*VoteMessage, round, setID uint64) {
+	s, t := a.s, a.s.tree
 	n := s.p.N
 	threshold := 2 * n / 3
 	iv := s.p.IntervalMs
 	// what the honest majority precommits in this round
 	maj := -1
 	cnt := map[int]int{}
-	for _, vm := range a.votes[round][byte(precommit)] {
+	for _, vm := range snap[byte(precommit)] {
 		b := t.Index(vm.Message.BlockHash)
 		cnt[b]++
 		if maj < 0 || cnt[b] > cnt[maj] {
@@ -941,7 +956,7 @@ func (a *c22Adv) forgeCommits(round, setID uint64) {
 			if cmRound != round {
 				return nil
 			}
-			for _, vm := range a.votes[round][byte(precommit)] {
+			for _, vm := range snap[byte(precommit)] {
 				if b := t.Index(vm.Message.BlockHash); b >= 0 && t.IsAncestorOrEqual(blk, b) {
 					out = append(out, SignedVote{Vote: Vote{Hash: vm.Message.BlockHash, Number: vm.Message.Number},
 						Signature: vm.Message.Signature, AuthorityID: vm.Message.AuthorityID})
@@ -1006,7 +1021,7 @@ func (a *c22Adv) forgeCommits(round, setID uint64) {
 				pcs = append(pcs, byzVote(b, x, cmRound, cmSet))
 			}
 		case "wrong-stage": // genuine honest PREVOTES presented as precommits
-			for _, vm := range a.votes[round][byte(prevote)] {
+			for _, vm := range snap[byte(prevote)] {
 				pcs = append(pcs, SignedVote{Vote: Vote{Hash: vm.Message.BlockHash, Number: vm.Message.Number},
 					Signature: vm.Message.Signature, AuthorityID: vm.Message.AuthorityID})
 				if b := t.Index(vm.Message.BlockHash); b >= 0 && r.Bool() {
@@ -1083,24 +1098,54 @@ func (a *c22Adv) runScript(name string) {
 // blocks 3-4 arrive, the best chain of nodes 0 and 3 is now 1-3-4, they and the Byzantine voter prevote and
 // precommit block 4 in round 2 and finalise it.
 func c22EstimateNotCarried(a *c22Adv) {
+	// reactive (see estimateScriptOnVote / estimateScriptOnFinalise): nothing is sent before the honest nodes act
+}
+
+// estimateScriptOnVote is the Byzantine voter of the scenario: it answers what it sees (a.mu is held).
+func (a *c22Adv) estimateScriptOnVote(from int, m *VoteMessage) {
 	s, t := a.s, a.s.tree
-	byz := s.p.Byz[0]
-	iv := s.p.IntervalMs
-	kp := s.keys[byz]
-	for _, to := range s.hon {
-		a.sendVote(kp, -1, to, prevote, t.Vote(2), 1, s.p.SetID, iv, "script-prevote", false)
-		blk := 1
-		if to == 1 {
-			blk = 2
+	kp := s.keys[s.p.Byz[0]]
+	blk := t.Index(m.Message.BlockHash)
+	once := func(key string) bool {
+		if a.stageSeen[key] {
+			return false
 		}
-		a.sendVote(kp, -1, to, precommit, t.Vote(blk), 1, s.p.SetID, 3*iv, "script-precommit", false)
-		if to != 1 {
-			for k := 0; k < 4; k++ {
-				a.sendVote(kp, -1, to, prevote, t.Vote(4), 2, s.p.SetID, (8+2*k)*iv, "script-prevote", false)
-				a.sendVote(kp, -1, to, precommit, t.Vote(4), 2, s.p.SetID, (11+2*k)*iv, "script-precommit", false)
+		a.stageSeen[key] = true
+		return true
+	}
+	switch {
+	case m.Round == 1 && m.Message.Stage != precommit && once("pv1"):
+		for _, to := range s.hon {
+			a.sendVote(kp, -1, to, prevote, t.Vote(2), 1, s.p.SetID, 0, "script-prevote", false)
+		}
+	case m.Round == 1 && m.Message.Stage == precommit && from != 1 && once("pc1"):
+		for _, to := range s.hon {
+			b := 1
+			if to == 1 {
+				b = 2
 			}
+			a.sendVote(kp, -1, to, precommit, t.Vote(b), 1, s.p.SetID, 0, "script-precommit", false)
+		}
+	case m.Round == 2 && m.Message.Stage != precommit && blk == 4 && once("pv2"):
+		for _, to := range []int{0, 3} {
+			a.sendVote(kp, -1, to, prevote, t.Vote(4), 2, s.p.SetID, 0, "script-prevote", false)
+		}
+	case m.Round == 2 && m.Message.Stage == precommit && blk == 4 && once("pc2"):
+		for _, to := range []int{0, 3} {
+			a.sendVote(kp, -1, to, precommit, t.Vote(4), 2, s.p.SetID, 0, "script-precommit", false)
 		}
 	}
+}
+
+// estimateScriptOnFinalise: blocks 3 and 4 reach nodes 0 and 3 right after they have left round 1.
+func (s *c22Sim) estimateScriptOnFinalise(i int, round uint64) {
+	if s.p.Script != "estimate-not-carried-over" || round != 1 || i == 1 {
+		return
+	}
+	s.after(0, func() {
+		s.importBlock(i, 3)
+		s.importBlock(i, 4)
+	})
 }
 
 // c22ForkCommit: every node knows the whole tree, the honest nodes vote for block 3 (best block) and the
@@ -1260,6 +1305,9 @@ func (a *c22Adv) observeScript(from int, gm GrandpaMessage) {
 		a.votes[m.Round][st] = map[int]*VoteMessage{}
 	}
 	a.votes[m.Round][st][from] = m
+	if a.s.p.Script == "estimate-not-carried-over" {
+		a.estimateScriptOnVote(from, m)
+	}
 }
 
 // ---------------------------------------------------------------------------------------------
@@ -1310,7 +1358,7 @@ func c22GenParams(c *vcommon.Case, thorough bool) *c22Params {
 			break
 		}
 	}
-	p.IntervalMs = r.Range(20, 30)
+	p.IntervalMs = r.Range(20, 40)
 	if thorough && r.Chance(1, 3) {
 		p.IntervalMs = r.Range(30, 50)
 	}
@@ -1365,9 +1413,9 @@ func c22ScriptParams(idx int) *c22Params {
 	case name == "estimate-not-carried-over":
 		p.Byz = []int{2}
 		p.Parents = []int{-1, 0, 1, 1, 3}
-		p.Release = [][]int{{0, 0, 0, 6 * p.IntervalMs, 6 * p.IntervalMs}, {0, 0, 0, -1, -1}, {0, 0, 0, 0, 0},
-			{0, 0, 0, 6 * p.IntervalMs, 6 * p.IntervalMs}}
-		p.Hold = [][]int{{0, 0, 0, 0}, {10 * p.IntervalMs, 0, 0, 10 * p.IntervalMs}, {0, 0, 0, 0}, {0, 0, 0, 0}}
+		// blocks 3 and 4 are given to nodes 0 and 3 by the script when they have finalised round 1
+		p.Release = [][]int{{0, 0, 0, -1, -1}, {0, 0, 0, -1, -1}, {0, 0, 0, 0, 0}, {0, 0, 0, -1, -1}}
+		p.Hold = [][]int{{0, 0, 0, 0}, {60 * p.IntervalMs, 0, 0, 60 * p.IntervalMs}, {0, 0, 0, 0}, {0, 0, 0, 0}}
 		p.Rounds = 2
 	case name == "fork-commit-exact-two-thirds":
 		// nodes 0 and 1 receive the fork 2-3 only late, node 2 receives the fork 4-5 only late
@@ -1568,6 +1616,8 @@ func c22Check(p *c22Params, t *verifTree, keys []*ed25519.Keypair, events []c22E
 
 var c22ReportMu sync.Mutex
 
+var c22HexRe = regexp.MustCompile(`0x[0-9a-fA-F]+`)
+
 func c22Execute(c *vcommon.Case, p *c22Params) {
 	defer func() {
 		if r := recover(); r != nil {
@@ -1608,9 +1658,9 @@ func c22Execute(c *vcommon.Case, p *c22Params) {
 	for i, e := range s.svcErr {
 		c.Count("round_loop_ended_with_error", 1)
 		_ = i
-		cls := e
-		if len(cls) > 60 {
-			cls = cls[len(cls)-60:]
+		cls := c22HexRe.ReplaceAllString(e, "0x..")
+		if len(cls) > 70 {
+			cls = cls[len(cls)-70:]
 		}
 		c.Count("round_loop_error:"+cls, 1)
 	}
